@@ -102,7 +102,7 @@ def gen_case(rnd):
         q = select(sel, table("t"), wh=gen_where(rnd), limit=lim, offset=off, limit_spelling=rnd.choice([0, 1]))
         if rnd.random() < 0.15:
             q = select([["star"]], ["derived", q, "d"])
-        return mk_case({"t": rows}, q, mode="seq", tag="whole-table")
+        return mk_case({"t": rows}, q, mode="seq", tag="whole-table", num_kind=rnd.choice(["int", "int64", "int32", "uint8", "float32"]) if rnd.random() < 0.1 else None)
     gcols = rnd.sample(["g0", "g1", "g2"], rnd.randint(1, 3))
     nested_key = rnd.random() < 0.15
     sel = []
@@ -131,7 +131,7 @@ def gen_case(rnd):
         off = rnd.choice([None, 0, 1])
     q = select(sel, table("t"), wh=gen_where(rnd), gb=gb, hv=gen_having(rnd), limit=lim, offset=off,
                limit_spelling=rnd.choice([0, 1]))
-    return mk_case({"t": rows}, q, mode="seq", tag="group-by")
+    return mk_case({"t": rows}, q, mode="seq", tag="group-by", num_kind=rnd.choice(["int", "int64", "int32", "uint8", "float32"]) if rnd.random() < 0.1 else None)
 
 
 def nontrivial(c, g, l):
